@@ -1,4 +1,5 @@
 import Proofs.LoadPerm
+import Proofs.LoadApiRun
 import Gen.Sharing
 
 /-!
@@ -195,6 +196,66 @@ theorem input_split_perm (parts1 parts2 : List (List Stmt)) (h : parts1.flatten.
   rw [input_split, input_split]
   simpa using h
 
+/-- **api_equiv**: the rows created through `MetaModel.new` with their referential values (model `apiBuild` of
+    `MetaClass.new`, its batch relate, `relate`, `_find_link` and the cardinality-checked `Link.connect`, as the
+    code is now) raise nothing and yield exactly the links — same ordered partner lists, both directions — and the
+    same stored rows as loading the schema followed by the INSERTs of the same rows, under the guards `ApiGuards`:
+    referred rows first; no cardinality-violating duplicates (the API relates with the cardinality check, the
+    loader connects unchecked); key lists non-empty (`new` never relates over an empty key list), without
+    repeats; no reflexive association; identifying attributes stored, not themselves referential; and
+    `_find_link(referred, referring, rel, link.phrase)` answering with the association itself (`ResolvesAt`) —
+    the guard that the open finding `api-phrased-direction` violates for associations whose ends carry
+    different phrases. -/
+theorem api_equiv (ss : List Stmt) (order : List (String × List Val)) (g : ApiGuards ss order) :
+    (apiBuild ss order).2 = order.map (fun _ => Outcome.ok) ∧
+    (apiBuild ss order).1.assocs = (buildCore (ss ++ insertsOf order)).assocs ∧
+    (∀ k, rowsOf (apiBuild ss order).1.classes k =
+      (rowsOf (buildCore (ss ++ insertsOf order)).classes k).map (stripRow (referential (popAssocs ss) k))) := by
+  obtain ⟨m', hrun, inv⟩ := apiRun_spec ss order g order [] (schemaModel ss) rfl (apiInv_init ss)
+  have hb : apiBuild ss order = (m', order.map (fun _ => Outcome.ok)) := hrun
+  have hk : ∀ a ∈ popAssocs (ss ++ insertsOf order), KeysOk a := by
+    intro a ha
+    rw [popAssocs_append, popAssocs_inserts, List.append_nil] at ha
+    exact (g.keys a ha).1
+  refine ⟨by rw [hb], ?_, ?_⟩
+  · rw [hb, buildCore_assocs _ hk, popAssocs_append, popAssocs_inserts, List.append_nil]
+    simp only [inv.assocs, rowsOf_loaded ss order g]
+  · intro k
+    rw [hb, rowsOf_loaded ss order g]
+    exact inv.rows k
+
+/-- a sufficient condition for the guard `resolves`: relationship numbers are not reused and both ends of
+    every association carry the same phrase (e.g. none) -/
+theorem resolves_of_plain (as : List AssocStmt) (hrel : (as.map (·.rel)).Nodup)
+    (hph : ∀ a ∈ as, a.srcPhrase = a.tgtPhrase) :
+    ∀ n a, as[n]? = some a → ResolvesAt as n a := by
+  intro n a hn
+  unfold ResolvesAt findLink
+  have key : ∀ (l : List AssocStmt) (k : Nat), (l.map (·.rel)).Nodup → (∀ b ∈ l, b.srcPhrase = b.tgtPhrase) →
+      ∀ n, l[n]? = some a →
+      findLinkFrom a.tgtKind a.srcKind a.rel a.srcPhrase k l = some (k + n, false) := by
+    intro l
+    induction l with
+    | nil => intro k _ _ n hn; simp at hn
+    | cons b rest ih =>
+      intro k hnd hp n hn
+      cases n with
+      | zero =>
+        simp only [List.getElem?_cons_zero, Option.some.injEq] at hn
+        subst hn
+        simp [findLinkFrom, hp b List.mem_cons_self]
+      | succ n =>
+        simp only [List.getElem?_cons_succ] at hn
+        have ha : a ∈ rest := List.mem_of_getElem? hn
+        simp only [List.map_cons, List.nodup_cons, List.mem_map, not_exists, not_and] at hnd
+        have hne : b.rel ≠ a.rel := fun e => hnd.1 a ha e.symm
+        simp only [findLinkFrom, ne_eq, hne, not_false_eq_true, if_true]
+        rw [ih (k + 1) hnd.2 (fun c hc => hp c (List.mem_cons_of_mem _ hc)) n hn]
+        congr 2
+        omega
+  have := key as 0 hrel hph n hn
+  simpa using this
+
 /-- **phase_order** (over the generated table): `ModelLoader.populate` still runs the five phases in the order in
     which `Pyx.Load.buildCore` composes them — classes, identifiers, associations, instances, connections. -/
 theorem phase_order :
@@ -238,7 +299,75 @@ example : UniqNamesOk exStmts := by
       simp [uniqOf, exStmts]
       intro h'; exact absurd h'.symm h
     rw [this]; exact List.nodup_nil
+/-- the API theorem is not vacuous: a schema with a two-attribute key, a duplicate-free population with a
+    matching, a null and a dangling reference satisfies every guard -/
+def exSchema : List Stmt :=
+  [ .cls "A" [("Id", .integer), ("B_Id", .uniqueId), ("B_Name", .string)],
+    .cls "B" [("Id", .uniqueId), ("Name", .string)], .assoc exA, .uniq "B" "I1" ["Id", "Name"] ]
+def exOrder : List (String × List Val) :=
+  [ ("B", [.id 7, .str "n"]), ("B", [.id 8, .str "n"]), ("A", [.int 1, .id 7, .str "n"]),
+    ("A", [.int 2, .id 0, .str "n"]), ("A", [.int 3, .id 9, .str "x"]) ]
+example : (apiBuild exSchema exOrder).2 = exOrder.map (fun _ => Outcome.ok) := by decide
+example : ((apiBuild exSchema exOrder).1.assocs.map (fun p => (p.2.tgt 0, p.2.tgt 1, p.2.tgt 2, p.2.src 0))) =
+    [([0], [], [], [0])] := by decide
+
+def exOrder2 : List (String × List Val) :=
+  [ ("B", [.id 7, .str "n"]), ("A", [.int 1, .id 7, .str "n"]), ("A", [.int 2, .id 0, .str "n"]) ]
+
+example : ApiGuards exSchema exOrder2 := by
+  have hA : popAssocs exSchema = [exA] := by decide
+  refine ⟨?_, by decide, ?_, ?_, ?_, ?_, by decide, ?_, ?_, ?_⟩
+  · intro s hs k ns vs he
+    subst he
+    simp [exSchema] at hs
+  · intro a ha
+    rw [hA] at ha
+    simp only [List.mem_singleton] at ha
+    subst ha
+    exact ⟨⟨by decide, by decide⟩, by decide, by decide, by decide⟩
+  · rw [hA]; decide
+  · rw [hA]; decide
+  · rw [hA]
+    intro n a hn
+    cases n with
+    | zero => simp at hn; subst hn; unfold ResolvesAt; decide
+    | succ n => simp at hn
+  · rw [hA]
+    intro a ha pre o suf hord hk r hr
+    simp only [List.mem_singleton] at ha
+    subst ha
+    -- the only rows of the referring class are the last two
+    match pre, hord with
+    | [], h => simp [exOrder2] at h; obtain ⟨rfl, _⟩ := h; simp [exA] at hk
+    | [_], h =>
+      simp [exOrder2] at h
+      obtain ⟨_, _, rfl⟩ := h
+      simp at hr; subst hr; decide
+    | [_, _], h =>
+      simp [exOrder2] at h
+      obtain ⟨_, _, _, rfl⟩ := h
+      simp at hr
+    | _ :: _ :: _ :: _, h => simp [exOrder2] at h
+  · rw [hA]; decide
+  · rw [hA]; decide
+
 example : exStmts.Perm exStmts.reverse := (List.reverse_perm _).symm
 example : Loader.inputs [] [exStmts.take 3, [], exStmts.drop 3] = exStmts := by decide
+
+/-
+  NOT PROVED (full statement; validated on every run instead: the model `cloneBuild` — attribute reads through the
+  chain of referential properties, then `new` — is executed against `MetaModel.clone` on every API case, and the
+  harness compares the cloned links with the nested-loop oracle under the same guards):
+
+  theorem clone_equiv (ss : List Stmt) (order : List (String × List Val)) (g : ApiGuards ss order) :
+      let positions := order.zipIdx.map (fun (o, n) => (o.1, ((order.take n).filter (·.1 = o.1)).length))
+      (cloneBuild (ss ++ insertsOf order) positions).2 = order.map (fun _ => Outcome.ok) ∧
+      (cloneBuild (ss ++ insertsOf order) positions).1.assocs = (buildCore (ss ++ insertsOf order)).assocs
+
+  Missing: the lemma that reading a loaded instance's referential attribute through the property chain
+  (`readRef`) returns the raw value whenever some association using the attribute is linked for the row, and
+  `None` otherwise — which makes `matchesB a (read row) t = matchesB a (raw row) t` for every association — and
+  the transfer of `ApiGuards` to the read rows; `api_equiv` then applies to the read rows.
+-/
 
 end PyxProps.C03
